@@ -84,7 +84,20 @@ type RecBlock struct {
 func NewEnv(c *fw.Ctx, o lab.Options) *Env {
 	o.Home = c.Scratch + "/home"
 	l := lab.New(dbm.NewMemDB(), o)
+	l.OnReadPanic = readPanicHook(c)
 	return &Env{C: c, L: l, R: c.Rng, GovRollbackPct: 15, MidBlockReadPct: 12}
+}
+
+// readPanicHook: a keeper getter / iterator that panics while the state is being read ends the case
+// (nothing can be observed any more: inconclusive) - except for the properties whose subject IS
+// that read surface: what an export hands out (C15, the export walks the same iterators) and what
+// the list queries are built from (C20). There it is the violation itself.
+func readPanicHook(c *fw.Ctx) func(p interface{}) {
+	return func(p interface{}) {
+		if c.Prop == "C15" || c.Prop == "C20" {
+			c.Violate("state-read-panicked", "observe", "reading the module state through the keepers' getters / iterators panicked: %s", firstN(fmt.Sprint(p), 300))
+		}
+	}
 }
 
 func (e *Env) tracef(format string, a ...interface{}) {
